@@ -370,6 +370,12 @@ class Engine:
         k = npt if grow else int(rng.integers(0, npt))
         x = self.new_point()
         r = self.resid(self.x_rel_track + x)
+        if not grow and rng.random() < 0.2:
+            # re-evaluation IN PLACE: bit-identical coordinates, a (much) better residual - the set of points is unchanged but
+            # kopt moves, and the factorisation is centred on xopt (seeded change C16_9)
+            x = md.points[k, :].copy()
+            r = r * 1e-3
+            self.count("op_replace_in_place")
         self.en += 1
         pid = self.pid
         self.pid += 1
